@@ -247,6 +247,33 @@ func fmtPath(bs []M) string {
 var _ = fmt.Sprint
 
 // negativeVariant makes criterion c1 strictly negative for every known alternative (observed range entirely below 0).
+// wideVariant adds two known alternatives that are never considered and lie beyond all others on every criterion, one
+// below and one above: whatever is computed over "all known alternatives" (observed ranges, bounding) must include both
+// ends, and joining the considered and the not-considered range must extend it on both sides at once.
+func wideVariant(root M) M {
+	r := asM(deepCopy(root))
+	lo, hi := map[string]float64{}, map[string]float64{}
+	for _, a := range asL(r["knownAlternatives"]) {
+		for k, v := range asM(asM(a)["criteria"]) {
+			f := asF(v)
+			if l, ok := lo[k]; !ok || f < l {
+				lo[k] = f
+			}
+			if h, ok := hi[k]; !ok || f > h {
+				hi[k] = f
+			}
+		}
+	}
+	below, above := map[string]float64{}, map[string]float64{}
+	for k := range lo {
+		below[k] = lo[k] - 1.5
+		above[k] = hi[k] + 2.5
+	}
+	// the low one first, the high one last: a fold over the not-considered alternatives meets both
+	r["knownAlternatives"] = append(append(L{alt("d", below)}, asL(r["knownAlternatives"])...), alt("e", above))
+	return M(r)
+}
+
 func negativeVariant(root M) M {
 	r := asM(deepCopy(root))
 	for _, a := range asL(r["knownAlternatives"]) {
